@@ -29,7 +29,7 @@ CHECKS.update({
              "Of the front-end clause it decides one finite part: the contextual-keyword token kinds that parse_identifier accepts "
              "as names are names at every name site, start-set test and gate in front of a name acceptor (15 rejected-name sites "
              "of the pinned tree reproduced as SyntaxErrors and repaired, fix: commits). It does not decide that the grammar as a "
-             "whole yields the same non-type AST with and without annotations. Also: modifier words are consumed in front of a member / parameter name only behind a one-token look-ahead; every keyword type variant is constructed by the type parser.",
+             "whole yields the same non-type AST with and without annotations. Also: modifier words are consumed in front of a member / parameter name only behind a one-token look-ahead; every keyword type variant is constructed by the type parser. A token-set pre-filter that transcribes a dispatcher's arms (nine tenths mutual coverage) lists all of them.",
         ref="4/C03"),
     "C15": dict(
         technique="static analysis: match-arm regions of the opcode interpreter + who-may-cast rule + def-chain (greatest fixed point) inside conversion helpers; value-origin rule for every f64 handed to Display/LowerExp in the number printers (field-sensitive through the format_args! tuple), who-may-format rules (one default printer; no tie-to-even precision formatting); positive-control fixtures; flow rule from fixed-width integer parsers / integer accumulators to script numbers; format-template inspection (bytes of format_args! templates, plain placeholder learnt from a fixture)",
@@ -87,7 +87,7 @@ CHECKS.update({
              "copy inside one vector is dominated by a direction test; natives that differ only in direction read the receiver alike; the default clause of a switch is jumped to only after all case tests; "
              "for(let) copies the loop variables back on every path to the back jump; the VM addresses registers only through operands; script values are sorted stably; "
              "string natives never mix UTF-8 byte quantities with character positions; RegExp natives that run the matcher keep lastIndex. Today's deviations are genuine and listed with failing "
-             "programs; the frame-restore defect was repaired (fix: commit). Further clauses: static class elements run after the class binding and the private methods and in source order; the constant pool shares a string slot by identity; all compilers of a parameter list bind every kind of parameter and record the rest parameter; the packed-arguments flag of compile_arguments is used by every caller; a parser that builds a node keeps every expression it parses.",
+             "programs; the frame-restore defect was repaired (fix: commit). Further clauses: static class elements run after the class binding and the private methods and in source order; the constant pool shares a string slot by identity; all compilers of a parameter list bind every kind of parameter and record the rest parameter; the packed-arguments flag of compile_arguments is used by every caller; a parser that builds a node keeps every expression it parses. Map/Set containers (IndexMap/IndexSet) are never edited with an order-breaking operation.",
         ref="4/C01"),
     "C08": dict(
         technique="static analysis: operand provenance + dominance templates on StepResult constructions, who-may-write table and operation-kind table for the ledger, must-pass-through in step(), per-variant sibling comparison of the result mappers; index-domain rule shared with C07",
@@ -187,7 +187,7 @@ CHECKS.update({
              "were reproduced and repaired, fix: commit) and the JSON exporter refuses cycles (its recursion is dominated by the "
              "visited-set test and the set is restored); serialized JSON text is never rewritten by a structure-blind substitution. "
              "Fidelity of strings, numbers and ordering is a matter of values and is "
-             "not decided. Also: function-, symbol- and undefined-valued members (and symbol keys) are left out, each behind a test of what the value is.",
+             "not decided. Also: function-, symbol- and undefined-valued members (and symbol keys) are left out, each behind a test of what the value is; a double is written to a document as an integer only behind comparisons that keep it inside the integer type (the 2**63 defect was repaired, fix: commit).",
         ref="4/C16"),
 })
 
